@@ -34,7 +34,11 @@ var c07yEvents = []string{"req-ok", "req-500", "req-refused(502)", "req-abort", 
 	// failed responses): a request the breaker admits then finds no backend and is answered
 	// 503 by the balancer itself - no backend was asked, so that is neither a successful nor a
 	// failed trial
-	"eject-all-backends-for-10s", "clock+11s"}
+	"eject-all-backends-for-10s", "clock+11s",
+	// exchanges that fail on the client's side after the backend has been asked: the upload
+	// cannot be read to its end (502), the client does not take the response body (aborted).
+	// Failed proxied requests like any other: the statement counts 5xx and aborted responses
+	"req-bad-upload(502)", "req-client-refuses-body"}
 
 type c07yInst struct {
 	s   *vrt.Sched
@@ -49,7 +53,7 @@ type c07yInst struct {
 func (in *c07yInst) LastOutcome() string { return in.out }
 
 func (in *c07yInst) Step(ev int) *vh.HViol {
-	modes := []string{"ok", "500", "refuse", "abort", "", "", "", "103+500", "103+ok", "garbage", "timeout", "ok", "500", "500", "ok", "500", "client-gone"}
+	modes := []string{"ok", "500", "refuse", "abort", "", "", "", "103+500", "103+ok", "garbage", "timeout", "ok", "500", "500", "ok", "500", "client-gone", "", "", "bad-upload", "client-refuses"}
 	edits := map[int]func(*http.Request){
 		11: func(r *http.Request) { r.Header.Set("Connection", "Upgrade"); r.Header.Set("Upgrade", "h2c") },
 		12: func(r *http.Request) {
@@ -93,6 +97,16 @@ func (in *c07yInst) Step(ev int) *vh.HViol {
 	var res reqResult
 	if modes[ev] == "client-gone" {
 		res = in.k.requestCancelled("10.0.0.1")
+	} else if modes[ev] == "bad-upload" {
+		for _, st := range in.k.stubs {
+			st.mode = "ok"
+		}
+		res = in.k.requestBadUpload("10.0.0.1")
+	} else if modes[ev] == "client-refuses" {
+		for _, st := range in.k.stubs {
+			st.mode = "ok"
+		}
+		res = in.k.requestClientRefuses("10.0.0.1")
 	} else {
 		res = in.k.requestWith("10.0.0.1", nil, edits[ev])
 	}
